@@ -31,6 +31,10 @@ variable {W : Type}
 /-- framer `i` is scheduled by the skedder, i.e. is nobody's auxiliary -/
 def Top (P : Prog) (i : Frid) : Prop := ∀ j, ¬ Child P j i
 
+/-- a scheduled framer is not claimed by any frame -/
+theorem top_claimed {P : Prog} {i : Frid} (ht : Top P i) (s : St W) : Claimed P i s :=
+  fun f hf _ => absurd ⟨f, rfl, hf⟩ (ht _)
+
 /-- the status part of the property, for scheduled framers -/
 structure StatusInv (i : Frid) (s : St W) : Prop where
   down : isUp (s.fr i).status = false → (s.fr i).active = none ∧ (s.fr i).actives = []
@@ -284,7 +288,7 @@ theorem C05_step_partial {i : Frid} (ht : Top P i) (c : Control) {s s' : St W} (
               | ok s2 =>
                 simp only [h2, Except.ok.injEq] at hs
                 have a0 := desire_case .run
-                have r1 := enterAll_spec wf hlo a0.owned h1
+                have r1 := enterAll_spec wf hlo a0.owned (top_claimed ht _) h1
                 have r2 := recur_spec wf hlo r1.2.1 h2
                 have st3 := setStatus_step (P := P) i .started s2
                 have hb2 : s2.bad = false := bad_of_step st3.1 (hs ▸ hb)
@@ -328,8 +332,8 @@ omit wf hlo in
 theorem FO.of_spec {D : Frid → Prop} {s s' : St W} (h : Owned P s → Mod D s s' ∧ Owned P s') : FO P s s' :=
   fun ho => ⟨(h ho).2, (h ho).1.flags⟩
 
-theorem framerStep_fo (i : Frid) (c : Control) {s s' : St W} (hs : framerStep P sem lo i c s = .ok s') :
-    FO P s s' := by
+theorem framerStep_fo (i : Frid) (ht : Top P i) (c : Control) {s s' : St W}
+    (hs : framerStep P sem lo i c s = .ok s') : FO P s s' := by
   have hbad : ∀ t : St W, FO P t (setStatus i .aborted (setDesire1 i .abort t)) := fun t =>
     (FO.of_step (setDesire1_step i .abort t)).trans (FO.of_step (setStatus_step i .aborted _))
   have hstop : FO P s (setStatus i .stopped (setDesire1 i .stop s)) :=
@@ -414,7 +418,8 @@ theorem framerStep_fo (i : Frid) (c : Control) {s s' : St W} (hs : framerStep P 
                 simp only [h2, Except.ok.injEq] at hs
                 rw [← hs]
                 exact (((FO.of_step (setDesire1_step i .run s)).trans
-                  (FO.of_spec (fun ho => ⟨(enterAll_spec wf hlo ho h1).1, (enterAll_spec wf hlo ho h1).2.1⟩))).trans
+                  (FO.of_spec (fun ho => ⟨(enterAll_spec wf hlo ho (top_claimed ht _) h1).1,
+                    (enterAll_spec wf hlo ho (top_claimed ht _) h1).2.1⟩))).trans
                   (FO.of_spec (fun ho => ⟨(recur_spec wf hlo ho h2).1, (recur_spec wf hlo ho h2).2.1⟩))).trans
                   (FO.of_step (setStatus_step i .started s2))
       | stop =>
@@ -449,9 +454,10 @@ def Fresh (s : St W) : Prop :=
 
 theorem C05_init (P : Prog) {s : St W} (h : Fresh s) : AllInv P s := by
   have hnr : ∀ m x, ¬ Running P s m x := fun m x ⟨_, hd⟩ => by rw [(h x).2.2.1] at hd; cases hd
-  refine ⟨⟨?_, ?_⟩, ?_, ?_⟩
+  refine ⟨⟨?_, ?_, ?_⟩, ?_, ?_⟩
   · intro i f hf; rw [(h i).2.1] at hf; cases hf
   · intro i a ha; rw [(h i).1] at ha; cases ha
+  · intro f x _ _ hd; rw [(h x).2.2.1] at hd; cases hd
   · intro i
     constructor
     · intro _; exact (h i).2.1
@@ -465,7 +471,7 @@ theorem C05_init (P : Prog) {s : St W} (h : Fresh s) : AllInv P s := by
     · intro hu; rw [(h i).2.2.2] at hu; cases hu
 
 theorem allInv_now {P : Prog} {s : St W} (h : AllInv P s) (t : Nat) : AllInv P { s with now := t } :=
-  ⟨⟨h.owned.actives, h.owned.active⟩,
+  ⟨⟨h.owned.actives, h.owned.active, h.owned.main⟩,
    fun i => ⟨(h.finv i).none_nil, (h.finv i).own, (h.finv i).full, (h.finv i).cut, (h.finv i).single⟩,
    fun i hi => ⟨(h.status i hi).down, (h.status i hi).up⟩⟩
 
@@ -478,22 +484,22 @@ theorem C05_reachable_partial {P : Prog} {rank : Frid → Nat} (wf : WF P rank) 
     AllInv P s := by
   have hlo := opsAt_spec wf sem n
   -- flags only rise along the rest of a run
-  have mono : ∀ (l : List (Frid × Control × Nat)) (a b : St W), Owned P a →
+  have mono : ∀ (l : List (Frid × Control × Nat)) (a b : St W), (∀ x, x ∈ l → Top P x.1) → Owned P a →
       runSteps P sem (opsAt P sem n) l a = .ok b → (a.bad = true → b.bad = true) := by
     intro l
     induction l with
-    | nil => intro a b _ h hq; simp only [runSteps, Except.ok.injEq] at h; rw [← h]; exact hq
+    | nil => intro a b _ _ h hq; simp only [runSteps, Except.ok.injEq] at h; rw [← h]; exact hq
     | cons x xs ih =>
-      intro a b ho h hq
+      intro a b hta ho h hq
       obtain ⟨i, c, t⟩ := x
       simp only [runSteps] at h
       cases h1 : framerStep P sem (opsAt P sem n) i c { a with now := t } with
       | error e => simp [h1] at h
       | ok a1 =>
         simp only [h1] at h
-        have ho' : Owned P { a with now := t } := ⟨ho.actives, ho.active⟩
-        have r := framerStep_fo wf hlo i c h1 ho'
-        exact ih a1 b r.1 h (r.2 hq)
+        have ho' : Owned P { a with now := t } := ⟨ho.actives, ho.active, ho.main⟩
+        have r := framerStep_fo wf hlo i (hta (i, c, t) (by simp)) c h1 ho'
+        exact ih a1 b (fun y hy => hta y (by simp [hy])) r.1 h (r.2 hq)
   induction steps generalizing s0 with
   | nil => simp only [runSteps, Except.ok.injEq] at hrun; rw [← hrun]; exact h0
   | cons x xs ih =>
@@ -504,33 +510,34 @@ theorem C05_reachable_partial {P : Prog} {rank : Frid → Nat} (wf : WF P rank) 
     | ok s1 =>
       simp only [h1] at hrun
       have a0 := allInv_now h0 t
-      have r := framerStep_fo wf hlo i c h1 a0.owned
+      have r := framerStep_fo wf hlo i (htop (i, c, t) (by simp)) c h1 a0.owned
       have hb1 : s1.bad = false := by
         cases hq : s1.bad with
         | false => rfl
-        | true => rw [mono xs s1 s r.1 hrun hq] at hb; cases hb
+        | true => rw [mono xs s1 s (fun y hy => htop y (by simp [hy])) r.1 hrun hq] at hb; cases hb
       have a1 := C05_step_partial wf hlo (htop (i, c, t) (by simp)) c a0 h1 hb1
       exact ih (fun y hy => htop y (by simp [hy])) a1 hrun
 
 /-- flags only rise along the tasker loop of one tick -/
 theorem tickLoop_mono {P : Prog} {rank : Frid → Nat} (wf : WF P rank) (sem : Sem W) (n : Nat) :
-    ∀ (l r a : List Frid) (m : Bool) (s : St W) (res : List Frid × List Frid × Bool × St W), Owned P s →
+    ∀ (l r a : List Frid) (m : Bool) (s : St W) (res : List Frid × List Frid × Bool × St W),
+      (∀ i, i ∈ l → Top P i) → Owned P s →
       tickLoop P sem (opsAt P sem n) l r a m s = .ok res → (s.bad = true → res.2.2.2.bad = true) := by
   have hlo := opsAt_spec wf sem n
   intro l
   induction l with
-  | nil => intro r a m s res _ h hq; simp only [tickLoop, Except.ok.injEq] at h; rw [← h]; exact hq
+  | nil => intro r a m s res _ _ h hq; simp only [tickLoop, Except.ok.injEq] at h; rw [← h]; exact hq
   | cons i rest ih =>
-    intro r a m s res ho h hq
+    intro r a m s res htl ho h hq
     simp only [tickLoop] at h
     cases h1 : framerStep P sem (opsAt P sem n) i (s.fr i).desire s with
     | error e => simp [h1] at h
     | ok s1 =>
       simp only [h1] at h
-      have fo := framerStep_fo wf hlo i _ h1 ho
+      have fo := framerStep_fo wf hlo i (htl i (by simp)) _ h1 ho
       split at h
-      · exact ih _ _ _ s1 res fo.1 h (fo.2 hq)
-      · exact ih _ _ _ s1 res fo.1 h (fo.2 hq)
+      · exact ih _ _ _ s1 res (fun j hj => htl j (by simp [hj])) fo.1 h (fo.2 hq)
+      · exact ih _ _ _ s1 res (fun j hj => htl j (by simp [hj])) fo.1 h (fo.2 hq)
 
 /-- **C05 (partial), the scheduler's loop over the ready taskers of one tick** (`Skedder.run`). -/
 theorem C05_tick_partial {P : Prog} {rank : Frid → Nat} (wf : WF P rank) (sem : Sem W) (n : Nat) :
@@ -548,15 +555,15 @@ theorem C05_tick_partial {P : Prog} {rank : Frid → Nat} (wf : WF P rank) (sem 
     | error e => simp [h1] at h
     | ok s1 =>
       simp only [h1] at h
-      have fo := framerStep_fo wf hlo i _ h1 h0.owned
+      have fo := framerStep_fo wf hlo i (htop i (by simp)) _ h1 h0.owned
       have hb1 : s1.bad = false := by
         cases hq : s1.bad with
         | false => rfl
         | true =>
           exfalso
           split at h
-          · rw [tickLoop_mono wf sem n _ _ _ _ s1 res fo.1 h hq] at hb; cases hb
-          · rw [tickLoop_mono wf sem n _ _ _ _ s1 res fo.1 h hq] at hb; cases hb
+          · rw [tickLoop_mono wf sem n _ _ _ _ s1 res (fun j hj => htop j (by simp [hj])) fo.1 h hq] at hb; cases hb
+          · rw [tickLoop_mono wf sem n _ _ _ _ s1 res (fun j hj => htop j (by simp [hj])) fo.1 h hq] at hb; cases hb
       have a1 := C05_step_partial wf hlo (htop i (by simp)) _ h0 h1 hb1
       split at h
       · exact ih _ _ _ s1 res (fun j hj => htop j (by simp [hj])) a1 h hb
